@@ -100,10 +100,19 @@ Definition expected_carrier (id : string) : option carrier :=
 Definition carrier_as_expected (x : string * (carrier * ipsrc)) : bool :=
   match expected_carrier (fst x) with Some c => carrier_eqb c (fst (snd x)) | None => false end.
 
+(* the one engine that may keep gin's default (trust every peer): the HTTP/3 WebTransport router of MoQ, whose handler
+   (onRequestHTTPS3) reads neither ClientIP nor a forwarding header; its sessions use the QUIC peer (ident_sites) *)
+Definition engines_default_expected : list string := ["internal/servers/moq/http_server.go:initialize:routerHTTP3"].
+
+Definition engine_ok (e : string * bool) : bool := snd e || mem_str (fst e) engines_default_expected.
+
 Lemma ident_ok :
   forallb ident_site_ok sites = true /\
   forallb (fun x => ip_ok (fst (snd x)) (snd (snd x))) ident_sites = true /\
-  forallb carrier_as_expected ident_sites = true.
+  forallb carrier_as_expected ident_sites = true /\
+  forallb engine_ok gin_engines = true /\
+  forallb (fun d => existsb (fun e => String.prefix d (fst e) && snd e) gin_engines)
+          ["internal/servers/hls/"; "internal/servers/webrtc/"; "internal/servers/moq/"] = true.
 Proof. vm_compute. repeat split. Qed.
 
 (* hence, for every non-exempt call site of the current source, with the wire request w feeding its authenticating
